@@ -246,8 +246,8 @@ def run(ctx):
         return recs
 
     def short_flush(recs):    # the peer is missing the last byte when Flush returns
-        for r in recs:
-            if r["ev"] == "Sink":
+        for i, r in enumerate(recs[:-1]):
+            if r["ev"] == "Sink" and r["n"] > 1 and recs[i + 1]["ev"] == "Op" and recs[i + 1]["k"] == "Flush":
                 r["t"] -= 1; r["n"] -= 1
                 return recs
         return recs
